@@ -137,6 +137,13 @@ class Scenario:
         self.slow_disc = cause == 'loss_slow_handler'
         if self.slow_disc:
             cause = 'loss'
+        # 'server_disconnect_then_close': the server ends every namespace and
+        # closes the transport at once; the loss is reported as soon as the
+        # client has handled the last DISCONNECT packet, before anything the
+        # client deferred to another thread / task has run
+        self.close_after = cause == 'server_disconnect_then_close'
+        if self.close_after:
+            cause = 'server_disconnect_last'
         self.cause = cause
         self.abort_at = abort_at
         self.then = then
@@ -286,6 +293,14 @@ class Scenario:
         if not h.c.connected:
             return self.fail('initial connect failed')
         self.arm(2)
+        if self.then == 'shutdown_in_flight_then_loss':
+            def in_flight():
+                if len(h.attempts) == 2:
+                    # another thread calls shutdown() now; it is blocked in
+                    # join() until the reconnect task ends
+                    h.c.shutdown()
+                    self.ctx.count('shutdown_while_an_attempt_is_in_flight')
+            h.connect_hook = in_flight
         self.cause_loss_sync()
         ok = self.judge(first=2)
         if ok and self.then:
@@ -304,6 +319,14 @@ class Scenario:
             h.lose()
         elif c == 'client_disconnect':
             h.api('disconnect')
+        elif c == 'server_disconnect_last' and self.close_after:
+            for ns in self.nss:
+                h.deliver(R.DISCONNECT, ns)
+                h.pump(until=h.deferred[-1])
+            if [e[1] for e in self.events if e[0] == 'disconnect'] == \
+                    list(self.nss):
+                self.ctx.count('transport_closed_right_after_last_disconnect')
+            h.lose()
         elif c == 'server_disconnect_last':
             for ns in self.nss:
                 h.server_send(R.DISCONNECT, ns)
@@ -320,12 +343,15 @@ class Scenario:
     def follow_up_sync(self, url, kw):
         h = self.h
         n0 = len(h.attempts)
-        if self.then == 'loss_again':
+        if self.then in ('loss_again', 'shutdown_in_flight_then_loss'):
+            h.connect_hook = None
             if not h.c.connected:
                 return True
             self.pattern = ''
             self.backoff = []
             self.arm(n0 + 1)
+            if self.then != 'loss_again':
+                self.ctx.count('losses_after_a_shutdown_during_an_attempt')
             h.lose()
             return self.judge(first=n0 + 1, again=True)
         if self.then == 'manual_connect_then_loss':
@@ -376,6 +402,14 @@ class Scenario:
                 return self.fail('initial connect failed')
             self.arm(2)
             cse = self.cause
+            if self.then == 'shutdown_in_flight_then_loss':
+                async def in_flight():
+                    if len(h.attempts) == 2:
+                        h.loop.create_task(c.shutdown())
+                        await asyncio.sleep(0)
+                        self.ctx.count(
+                            'shutdown_while_an_attempt_is_in_flight')
+                h.connect_hook = in_flight
 
             async def cause():
                 if cse in ('loss', 'disabled'):
@@ -389,6 +423,17 @@ class Scenario:
                     await h.a_lose()
                 elif cse == 'client_disconnect':
                     await c.disconnect()
+                elif cse == 'server_disconnect_last' and self.close_after:
+                    for ns in self.nss:
+                        h.deliver(R.DISCONNECT, ns)
+                    for _ in range(50):
+                        if [e[1] for e in self.events
+                                if e[0] == 'disconnect'] == list(self.nss):
+                            self.ctx.count('transport_closed_right_after_'
+                                           'last_disconnect')
+                            break
+                        await asyncio.sleep(0)
+                    await h.a_lose()
                 elif cse == 'server_disconnect_last':
                     for ns in self.nss:
                         h.deliver(R.DISCONNECT, ns)
@@ -421,12 +466,15 @@ class Scenario:
         h = self.h
         c = h.c
         n0 = len(h.attempts)
-        if self.then == 'loss_again':
+        if self.then in ('loss_again', 'shutdown_in_flight_then_loss'):
+            h.connect_hook = None
             if not c.connected:
                 return True
             self.pattern = ''
             self.backoff = []
             self.arm(n0 + 1)
+            if self.then != 'loss_again':
+                self.ctx.count('losses_after_a_shutdown_during_an_attempt')
 
             async def again():
                 await h.a_lose()
@@ -467,6 +515,11 @@ class Scenario:
                              errs[0]['exc'])
         made = h.attempts[first - 1:]
         ctx.count('scenarios_judged')
+        if self.then == 'shutdown_in_flight_then_loss' and not again:
+            # what shutdown() does to an attempt that is already in flight is
+            # not part of the property; the further loss (if the client ends
+            # up connected) is
+            return True
         if self.cause != 'loss':
             if made:
                 return self.fail('%d connection attempts after an '
@@ -604,6 +657,9 @@ def run(ctx):
     ctx.require('scenarios_judged', 300)
     ctx.require('namespace_ended_before_the_loss', 4)
     ctx.require('overlapping_server_disconnects', 4)
+    ctx.require('transport_closed_right_after_last_disconnect', 4)
+    ctx.require('shutdown_while_an_attempt_is_in_flight', 4)
+    ctx.require('losses_after_a_shutdown_during_an_attempt', 2)
     ctx.require('losses_with_slow_disconnect_handler', 4)
     ctx.require('backoff_waits_checked', 300)
     ctx.require('backoff_waits_checked_with_pinned_random_source', 50)
@@ -615,6 +671,10 @@ def run(ctx):
     grid = list(itertools.product(GRID_D, GRID_DMAX, GRID_RF, GRID_ATT))
     rng = ctx.rng
     jobs = []
+    for kind in ('sync', 'async'):
+        for params in [(1, 5, 0.5, 0), (0.5, 1, 0, 6), (1, 5, 0, 1)]:
+            jobs.append((kind, params, '', 'loss', None,
+                         'shutdown_in_flight_then_loss'))
     # aborts at every wait
     for p in ['TTT', 'NTN', 'TNTTNT', 'LT', '']:
         for k in range(1, len(p) + 2):
@@ -633,7 +693,8 @@ def run(ctx):
                              None))
     # intentional ends
     for cause in ('client_disconnect', 'server_disconnect_last',
-                  'server_close', 'disabled', 'server_disconnect_overlap'):
+                  'server_close', 'disabled', 'server_disconnect_overlap',
+                  'server_disconnect_then_close'):
         for kind in ('sync', 'async'):
             for params in grid[::5]:
                 jobs.append((kind, params, 'TT', cause, None, None))
